@@ -7,8 +7,10 @@ import (
 	"crypto/tls"
 	"crypto/x509"
 	"crypto/x509/pkix"
+	"fmt"
 	"math/big"
 	"net"
+	"os"
 	"sync"
 	"time"
 )
@@ -18,8 +20,18 @@ var (
 	tlsSrv, tlsCli  *tls.Config
 )
 
+// loopIP is the loopback address engine R binds to: one per worker process
+// (all of 127.0.0.0/8 is local on Linux). Port numbers are allocated per
+// address, so neither another worker nor an unrelated process on 127.0.0.1 can
+// take a port this process has just released - which the "address was freed,
+// the retry must work" and "nobody listens there" steps rely on.
+var loopIP = func() string {
+	pid := os.Getpid()
+	return fmt.Sprintf("127.%d.%d.1", 1+(pid/250)%250, 1+pid%250)
+}()
+
 // tlsConfigs returns a server and a client config sharing one self-signed
-// ECDSA certificate for 127.0.0.1 (generated once per process).
+// ECDSA certificate for loopIP and 127.0.0.1 (generated once per process).
 func tlsConfigs() (*tls.Config, *tls.Config) {
 	tlsOnce.Do(func() {
 		key, err := ecdsa.GenerateKey(elliptic.P256(), rand.Reader)
@@ -35,7 +47,7 @@ func tlsConfigs() (*tls.Config, *tls.Config) {
 			ExtKeyUsage:           []x509.ExtKeyUsage{x509.ExtKeyUsageServerAuth},
 			BasicConstraintsValid: true,
 			IsCA:                  true,
-			IPAddresses:           []net.IP{net.ParseIP("127.0.0.1")},
+			IPAddresses:           []net.IP{net.ParseIP("127.0.0.1"), net.ParseIP(loopIP)},
 			DNSNames:              []string{"localhost"},
 		}
 		der, err := x509.CreateCertificate(rand.Reader, tmpl, tmpl, &key.PublicKey, key)
@@ -46,7 +58,7 @@ func tlsConfigs() (*tls.Config, *tls.Config) {
 		pool := x509.NewCertPool()
 		pool.AddCert(cert)
 		tlsSrv = &tls.Config{Certificates: []tls.Certificate{{Certificate: [][]byte{der}, PrivateKey: key}}}
-		tlsCli = &tls.Config{RootCAs: pool, ServerName: "127.0.0.1"}
+		tlsCli = &tls.Config{RootCAs: pool, ServerName: loopIP}
 	})
 	return tlsSrv, tlsCli
 }
